@@ -3,6 +3,9 @@ let rec pos_of_int n = if n = 1 then XH else if n land 1 = 0 then XO (pos_of_int
 let z_of_int n = if n = 0 then Z0 else if n > 0 then Zpos (pos_of_int n) else Zneg (pos_of_int (-n))
 let rec nat_of_int n = if n <= 0 then O else S (nat_of_int (n-1))
 let rec int_of_nat = function O -> 0 | S n -> 1 + int_of_nat n
+let rec int_of_pos = function XH -> 1 | XO p -> 2 * int_of_pos p | XI p -> 2 * int_of_pos p + 1
+let int_of_z = function Z0 -> 0 | Zpos p -> int_of_pos p | Zneg p -> - (int_of_pos p)
+let show_oz = function None -> "N" | Some z -> string_of_int (int_of_z z)
 let explode s = List.init (String.length s) (String.get s)
 let implode l = String.of_seq (List.to_seq l)
 let unhex s = let n = String.length s / 2 in String.init n (fun i -> Char.chr (int_of_string ("0x" ^ String.sub s (2*i) 2)))
@@ -48,6 +51,7 @@ let () =
       (match f with
        | ["T"; sp; e] -> print_endline (out_string (eval_text_span (span_of sp) (explode (unhex e))))
        | ["W"; sp; e] -> print_endline (out_string (rewrite_span (span_of sp) (explode (unhex e))))
+       | ["I"; e] -> print_endline (show_oz (parse_int_raw (explode (unhex e))) ^ " " ^ show_oz (parse_pyint (explode (unhex e))))
        | ["M"; n; e] ->
            (match index_sem (nat_of_int (int_of_string n)) (explode (unhex e)) with
             | None -> print_endline "N"
